@@ -79,6 +79,16 @@ Qed.
 Section Grid.
 Context (nfft : nat) (tw : Z -> F) {T : Twiddle nfft tw}.
 
+(* real() discards nothing: every bin of fft(psi) is real *)
+Theorem psi_dft_real_thm m (A : list F) P : (1 <= m)%nat -> (2 * m - 1 <= nfft)%nat -> conj P = P -> P <> 0 ->
+  forall f, (f < nfft)%nat ->
+    conj (nthF (dft tw nfft (psi_loop m nfft A P)) f) = nthF (dft tw nfft (psi_loop m nfft A P)) f.
+Proof.
+  intros Hm Hn HP HP0 f Hf. rewrite nth_dft_crop by exact Hf.
+  destruct (psi_hermitian_thm m nfft A P Hm Hn HP HP0) as [P0r Psym].
+  apply (dft_hermitian_real nfft tw ltac:(lia)); assumption.
+Qed.
+
 (* sum_{k<m} |A_k(f)|^2 / P_k,  A_k the step-up polynomial of the first k reflection coefficients *)
 Definition capon_sum (P0 : F) (ks : list F) (f : Z) : F :=
   sumf (S (length ks)) (fun k => nrm2 (ev tw f (1 :: stepup_all (firstn k ks))) / (P0 * prodk (firstn k ks))).
